@@ -55,7 +55,7 @@ func classOf(got, want []byte) string {
 }
 
 func run(c *rig.Ctx) {
-	c.Require("history_sb_writes", "program_sb_writes", "rom_sb_writes", "nil_writer_runs", "wiring_runs", "sb_sc_reads")
+	c.Require("history_sb_writes", "program_sb_writes", "rom_sb_writes", "nil_writer_runs", "wiring_runs", "sb_sc_reads", "wiring_runs_without_writer")
 
 	// (1) register-level histories
 	c.Part("histories", c.N(300, 6000), func(i int64, r *rig.Rng) {
@@ -98,6 +98,53 @@ func run(c *rig.Ctx) {
 		}
 		c.Case(rig.Hash(uint64(i), r.U64()))
 	})
+
+	// (1b) delivery must not depend on the values: every ordered pair of byte values, and every
+	// triple over an alphabet of control characters and extremes, written back to back
+	c.Part("pairs", 256, func(i int64, r *rig.Rng) {
+		buf := &bytes.Buffer{}
+		m := rig.MustNew(rig.BlankROM(0, 0, 0), rig.Opts{SerialWriter: buf})
+		a := uint8(i)
+		for b := 0; b < 256; b++ {
+			buf.Reset()
+			m.Mem.Write(0xff01, a)
+			m.Mem.Write(0xff01, uint8(b))
+			if got := buf.Bytes(); len(got) != 2 || got[0] != a || got[1] != uint8(b) {
+				c.Violate("pair-"+classOf(got, []byte{a, uint8(b)}), fmt.Sprintf("SB written %02X then %02X: delivered % X", a, b, got), nil)
+				return
+			}
+			c.Count("history_sb_writes", 2)
+			c.Exact(1)
+		}
+		special := []uint8{0x00, 0x01, 0x03, 0x04, 0x07, 0x08, 0x09, 0x0a, 0x0b, 0x0c, 0x0d, 0x1a, 0x1b, 0x20, 0x7f, 0x80, 0xfe, 0xff}
+		if int(i) < len(special) {
+			for _, b := range special {
+				for _, d := range special {
+					buf.Reset()
+					want := []byte{special[i], b, d, special[i]}
+					for _, v := range want {
+						m.Mem.Write(0xff01, v)
+					}
+					if got := buf.Bytes(); !bytes.Equal(got, want) {
+						c.Violate("triple-"+classOf(got, want), fmt.Sprintf("SB written % X: delivered % X", want, got), nil)
+						return
+					}
+					c.Count("history_sb_writes", 4)
+					c.Exact(1)
+				}
+			}
+		}
+		// runs of one value
+		buf.Reset()
+		n := 2 + r.Intn(300)
+		for k := 0; k < n; k++ {
+			m.Mem.Write(0xff01, a)
+		}
+		if got := buf.Bytes(); len(got) != n {
+			c.Violate("run-length", fmt.Sprintf("SB written %02X %d times in a row: %d bytes delivered", a, n, len(got)), nil)
+		}
+	})
+	c.MarkExhaustive("every ordered pair of byte values written back to back; every triple over 18 control/extreme values")
 
 	// (2) generated programs: the SB write log comes from the lock-step reference CPU
 	progRun := func(p *prog.Program, cycles int, withWriter bool) (got, want []byte, f *lockstep.Follower) {
@@ -194,7 +241,7 @@ func run(c *rig.Ctx) {
 		}})
 
 	// (5) wiring through gameboy.New
-	c.Part("wiring", c.N(12, 120), func(i int64, r *rig.Rng) {
+	c.Part("wiring", c.N(24, 180), func(i int64, r *rig.Rng) {
 		p := prog.Generate(r, prog.Options{Serial: true, CartType: 0})
 		frames := 2 + r.Intn(3)
 		// screen on the rig first: a program that reaches an undefined opcode (the deliberate
@@ -212,14 +259,36 @@ func run(c *rig.Ctx) {
 		os.WriteFile(path, p.ROM, 0o644)
 		defer os.Remove(path)
 		buf := &bytes.Buffer{}
-		gb := gameboy.New(gameboy.Config{RomFilename: path, DisableVideoOutput: true, DisableAudioOutput: true, SerialWriter: buf})
+		// every configuration: with and without a writer, with the debug options on and off
+		variant := int(i % 6)
+		cfg := gameboy.Config{RomFilename: path, DisableVideoOutput: true, DisableAudioOutput: true, SerialWriter: buf}
+		cfg.DebugCPU = variant == 1 || variant == 2
+		cfg.DebugLCD = variant == 3 || variant == 4
+		if variant == 2 || variant == 4 || variant == 5 {
+			cfg.SerialWriter = nil
+			c.Count("wiring_runs_without_writer", 1)
+		}
+		// the CPU trace of DebugCPU goes to standard output: discard it
+		stdout := os.Stdout
+		if null, err := os.OpenFile(os.DevNull, os.O_WRONLY, 0); err == nil {
+			os.Stdout = null
+			defer func() { os.Stdout = stdout; null.Close() }()
+		}
+		gb := gameboy.New(cfg)
 		for k := 0; k < frames; k++ {
 			// peek guard: generated grammar programs never execute undefined opcodes
 			gb.XRunFrame(context.Background())
 		}
+		os.Stdout = stdout
 		_, want, _ = progRun(p, frames*17556, true)
+		if cfg.SerialWriter == nil {
+			want = nil
+			if sb, sc := gb.XMapper().Read(0xff01), gb.XMapper().Read(0xff02); sb != 0xff || sc != 0xff {
+				c.Violate("sb-sc-readback", fmt.Sprintf("through gameboy.New with no writer: SB reads %02X, SC reads %02X", sb, sc), nil)
+			}
+		}
 		if d := diff(buf.Bytes(), want); d != "" {
-			c.Violate("wiring-"+classOf(buf.Bytes(), want), fmt.Sprintf("through gameboy.New, %d frames of %s: %s", frames, p.Describe(), d), nil)
+			c.Violate("wiring-"+classOf(buf.Bytes(), want), fmt.Sprintf("through gameboy.New (DebugCPU=%v DebugLCD=%v writer=%v), %d frames of %s: %s", cfg.DebugCPU, cfg.DebugLCD, cfg.SerialWriter != nil, frames, p.Describe(), d), nil)
 		}
 		c.Count("wiring_runs", 1)
 		c.Case(rig.Hash(p.Hash, uint64(frames)))
